@@ -89,7 +89,8 @@ def check_group2(run, rule, F, crate, group, expect, only=None, what=None):
     """every specified function of the group (public API and trait methods; private helpers are inlined into them) must be equivalent
     to its specified semantic summary; a specified function that disappeared fails closed"""
     import summ2
-    fns = {summ.fn_key(f): f for f in fns_of_group(crate, group) if specified(f)}
+    # (a function with a specification stays specified when its visibility is narrowed, e.g. `pub` -> `pub(crate)` after a move)
+    fns = {summ.fn_key(f): f for f in fns_of_group(crate, group) if specified(f) or summ.fn_key(f) in expect.get(group, {})}
     ren = renames(F, crate, expect)
     n = 0
     served = set()        # generic impls judged through the specified instances they serve
